@@ -155,4 +155,21 @@ PROPS = {
         'explanation': 'theorems verdict_count, accepted_only_if, connid_iff, pairing (+ codec round trips), count_mismatch_dropped; step equality of the '
                        'decoded ACCEPT; the same clauses as monitors on the real reply; queue contents of real transfers',
     },
+    'C20': {
+        'lean_targets': ['Shisui.Props.C20'],
+        'min_obligations': 3,
+        'runs': [{'name': 'gossip', 'harness': ['gossip'], 'driver': ['C20']},
+                 {'name': 'radius', 'harness': ['radius'], 'driver': ['C20']}],
+        'rule': 'real GossipAndReturnPeers on started nodes without offer workers (queued offers observable), tables of 0/3/20/62/140/272 nodes, the '
+                'radius cache rewritten per call with densities from "nobody known" to "everybody covers", source absent / a table node / a stranger; '
+                'the returned peers must satisfy the Allowed relation and equal the number of queued offers, the source must not be queued; radius '
+                'cache: sequences of 1..6 ping/pong reports per peer (types ClientInfo, BasicRadius, HistoryRadius, unknown 7, Error; truncated '
+                'payloads) on a history node and a state node, for table entries, replacements and strangers, processed in order; after each event '
+                'the cache must equal the model; plus pings through the real asynchronous handler (polled); non-trivial = at least one covered '
+                'node / every event; distinct = distinct lines',
+        'trusted': ['fastcache as a map (no eviction at these sizes); in-range test (C06) as observed by the real function'],
+        'assumptions': ['ping payloads are processed in the order given (the handler processes them in fresh goroutines)'],
+        'explanation': 'theorems gossip_rule (from the Allowed relation), radius_is_last_report (all report sequences), unknown_never_target; relation check on '
+                       'real gossip calls; step equality of the radius cache',
+    },
 }
